@@ -98,7 +98,19 @@ fn components(depth: u8, s: &BTreeSet<u64>, with_vertices: bool) -> Vec<BTreeSet
   comps
 }
 
+fn cells_txt(s: &BTreeSet<u64>) -> String {
+  if s.is_empty() { "_".to_string() } else { s.iter().map(|x| x.to_string()).collect::<Vec<_>>().join(",") }
+}
+
 fn space(sink: &mut Sink, rng: &mut Rng, thorough: bool) {
+  // the adjacency the Lean model is parametrised by: neighbour lists of cdshealpix, per depth and connectivity
+  for depth in 0..3u8 {
+    for v in [false, true] {
+      let ncell = 12u64 << (2 * depth);
+      let a = (0..ncell).map(|c| { let ns: BTreeSet<u64> = neighbours(depth, c, v).into_iter().collect(); format!("{}:{}", c, cells_txt(&ns)) }).collect::<Vec<_>>().join(";");
+      sink.emit(&format!("adj {} {} {}", depth, v as u8, a), "ok", false);
+    }
+  }
   let n = if thorough { 20000 } else { 600 };
   for i in 0..n {
     let depth = ((i / 10 + i) % 3) as u8; // depths 0, 1, 2: 12 / 48 / 192 cells
@@ -145,6 +157,28 @@ fn space(sink: &mut Sink, rng: &mut Rng, thorough: bool) {
     let compl: BTreeSet<u64> = all.difference(&s).cloned().collect();
     let exp = oracle_expand(depth, &s);
     let con: BTreeSet<u64> = all.difference(&oracle_expand(depth, &compl)).cloned().collect();
+    {
+    // the same operations against the Lean model over the adjacency sent above
+      let st = cells_txt(&s);
+      let mut model_op = |name: &str, got: std::thread::Result<BTreeSet<u64>>| {
+        let ans = match got { Ok(g) => cells_txt(&g), Err(_) => panic_answer() };
+        sink.emit(&format!("{} {} {}", name, depth, st), &ans, !s.is_empty());
+      };
+      model_op("sp_exp", std::panic::catch_unwind(AssertUnwindSafe(|| flat_cells(&m.expanded()))));
+      model_op("sp_con", std::panic::catch_unwind(AssertUnwindSafe(|| flat_cells(&m.contracted()))));
+      model_op("sp_ext", std::panic::catch_unwind(AssertUnwindSafe(|| flat_cells(&m.external_border()))));
+      model_op("sp_int", std::panic::catch_unwind(AssertUnwindSafe(|| flat_cells(&m.internal_border()))));
+      for indirect in [false, true] {
+        let got = std::panic::catch_unwind(AssertUnwindSafe(|| {
+          let mut parts: Vec<Vec<u64>> = m.split_into_joint_mocs(indirect).into_iter()
+            .map(|cm| flat_cells(&cm.into_cell_moc_iter().ranges().into_range_moc()).into_iter().collect::<Vec<u64>>()).collect();
+          parts.sort();
+          if parts.is_empty() { "_".to_string() } else { parts.iter().map(|p| p.iter().map(|x| x.to_string()).collect::<Vec<_>>().join(",")).collect::<Vec<_>>().join("|") }
+        }));
+        let ans = match got { Ok(a) => a, Err(_) => panic_answer() };
+        sink.emit(&format!("sp_split {} {} {}", depth, indirect as u8, st), &ans, !s.is_empty());
+      }
+    }
     let mut check = |name: &str, got: Result<BTreeSet<u64>, ()>, want: &BTreeSet<u64>| {
       sink.count(&format!("space-op:{}", name));
       match got {
